@@ -60,7 +60,7 @@ CLAIMED = {
               "resource and inside %include fragments at any depth.",
               _CFG_NOTE, "Lean 4 proof (culprit position, unbounded) + fault injection with known culprit", "§0.2, §7 C08"),
     "C09": _c("PROVED for all strings, per datatype: model (through generated patterns, word tuples, bounds, suffix tables) = documented contract "
-              "(76 theorems: basic-key, identifier, dotted-name, dotted-suffix, boolean, port-number, byte-size, time-interval, inet-address, "
+              "(over 120 audited theorems: basic-key, identifier, dotted-name, dotted-suffix, boolean, port-number, byte-size, time-interval, inet-address, "
               "socket-address, ipaddr-or-hostname exact with a declarative IPv6 text grammar proved equal to the inet_pton re-implementation, "
               "integer and float literal grammars, string-list, timedelta incl. the TypeError carve-out; key types idempotent; the six host-dependent "
               "types — existing-directory/-path/-file/-dirpath, locale behind MemoizedConversion, timedelta's constructor — over a Host parameter "
